@@ -817,7 +817,10 @@ class Sim:
         self.by_jobid[mj.jobid] = mj
 
     # -- the task feeder --------------------------------------------------------
-    def op_feed(self, fault_at=None, interleave=False):
+    def op_feed(self, fault_at=None, interleave=False, many=False):
+        """run the real TaskHandler.body() on the next queued request - or,
+        with many=True, on every request queued so far in ONE invocation of the
+        loop (state kept across iterations of that loop matters)"""
         pool = self.pool
         if not self.config.get('threads', True) and not self.in_join:
             # nobody consumes the task queue without the TaskHandler
@@ -832,9 +835,19 @@ class Sim:
             self.readback()
             self.feeder_done = True
             return
-        taskseq, set_length = req
         q = queue.Queue()
         q.put(req)
+        got_close = False
+        while many:
+            try:
+                nxt = pool._taskqueue.get_nowait()
+            except queue.Empty:
+                break
+            if nxt is None:
+                got_close = True      # handled after this batch
+                break
+            q.put(nxt)
+            self.labels.add('feed_batch')
         q.put(None)
         saved = (th.taskqueue, th.put, th.outqueue, th.pool)
         real_put = th.put
@@ -872,10 +885,14 @@ class Sim:
         mj = self.by_jobid.get(fed_job[0])
         if mj is not None:
             mj.fed = True
+        if got_close:
+            th.tell_others()
+            self.readback()
+            self.feeder_done = True
 
     def drain_taskqueue(self):
         for _ in range(10000):
-            if self.op_feed() == 'noop':
+            if self.op_feed(many=True) == 'noop':
                 return
         raise SimHarnessError('task queue does not drain')
 
@@ -1144,7 +1161,7 @@ class Sim:
         big_advances = 0
         for rnd in range(3000):
             progressed = False
-            while self.op_feed() != 'noop':
+            while self.op_feed(many=True) != 'noop':
                 progressed = True
             for proc in list(self.procs):
                 while proc.outbox:
